@@ -11,10 +11,13 @@ CONSTANTS
   NB = 64
   Styles <- AllStyles
   EmitMod = 2
+  HistLen = 3
 INVARIANT ReadBack
 INVARIANT V1Algorithm
 INVARIANT AutoOnV1
 INVARIANT AutoOnMixed
 INVARIANT AutoOnV2
+INVARIANT AtNeutral
+INVARIANT HistoryIndependent
 INVARIANT Witness
 INVARIANT Emit
